@@ -75,6 +75,29 @@ Theorem C25_only_current_passwords_open : forall prep h,
 Proof. exact history_current. Qed.
 Print Assumptions C25_only_current_passwords_open.
 
+(* 4. After any history, a WRONG password x - one whose prepared form differs from the prepared forms of the current
+      owner and user passwords (and the user password is not the empty one) - is refused everywhere: it does not open or
+      decrypt the document from either slot, no change operation succeeds with x as the owner credential, and none with
+      x as the user credential; the document stays as it is.  Whether two spellings (letter case, width, normalisation
+      form) are the same password is decided by the preparation alone: the statement needs no hypothesis on prep, and
+      "prep must not identify letters of different case" is checked on the implementation against NFKC computed
+      independently (correspondence stream "prepared", oracle classes wrong-password-accepted:<kind>:<operation>). *)
+Theorem C25_wrong_password_refused_everywhere : forall prep h e c x,
+  run prep Plain h = Encrypted e -> cur prep None Plain h = Some c ->
+  x <> [] ->
+  rprep prep (cR c) x <> rprep prep (cR c) (cO c) ->
+  rprep prep (cR c) x <> rprep prep (cR c) (cU c) ->
+  rprep prep (cR c) [] <> rprep prep (cR c) (cU c) ->
+  opens prep e x [] = false /\ opens prep e [] x = false
+  /\ (exists err, step prep (Encrypted e) (OpDecrypt x []) = (RErr err, Encrypted e))
+  /\ (exists err, step prep (Encrypted e) (OpDecrypt [] x) = (RErr err, Encrypted e))
+  /\ (forall o, is_change o = true -> fst (slots o) = x ->
+        exists err, step prep (Encrypted e) o = (RErr err, Encrypted e))
+  /\ (forall o, is_change o = true -> snd (slots o) = x -> fst (slots o) <> [] ->
+        exists err, step prep (Encrypted e) o = (RErr err, Encrypted e)).
+Proof. exact wrong_password_refused. Qed.
+Print Assumptions C25_wrong_password_refused_everywhere.
+
 (* non-vacuity: a history with equal passwords, a refused change, a change through the empty owner slot *)
 Example C25_nonvacuous :
   let prep := fun x : bytes => Some x in
